@@ -619,8 +619,12 @@ func (m *Machine) repoFuncName(fn *ssa.Function) (string, bool) {
 	for root.Parent() != nil {
 		root = root.Parent()
 	}
-	if root.Pkg != nil && root.Pkg.Pkg != nil {
-		pp := root.Pkg.Pkg.Path()
+	pkg := root.Pkg
+	if pkg == nil && root.Origin() != nil {
+		pkg = root.Origin().Pkg // an instantiation of a generic function belongs to the package of its origin
+	}
+	if pkg != nil && pkg.Pkg != nil {
+		pp := pkg.Pkg.Path()
 		if strings.HasPrefix(pp, "github.com/dapr/kit") && !strings.Contains(pp, "/zzverif") {
 			pos := fn.Pos()
 			if !pos.IsValid() {
